@@ -90,6 +90,40 @@ Injective  == \A i, j \in 1..N : i < j => ~Collides(i, j)
 Functional == \A i, j \in 1..N : i < j => ~Splits(i, j)
 Total      == \A i \in 1..N : Defined(i)
 
+\* ---- plausible OTHER encodings (sensitivity of the universe) --------------------------------------
+\* A change of the code that swaps the current encoding for another one is only noticed if the universe holds
+\* a pair of different values that the OTHER encoding maps to one byte string.  Each variant below is such an
+\* encoding (some are the design as first read, some are simplifications a maintainer might make); TLC lists,
+\* for every variant, the pairs that collide under it but not under the current design.  The check fails as
+\* INFRA (not as a violation) when some variant has no such pair: the universe would be blind to it.
+Variants == {"pred-varint-unpadded",      \* id ++ PutVarint(UnixNano) without the zero padding to 16 bytes
+             "pred-decimal-nanos",        \* id ++ decimal text of UnixNano
+             "literal-without-type",      \* payload only (as first read)
+             "object-untagged-predicate", \* boxed predicate = its own bytes (as first read)
+             "int64-varint-cut-to-8",     \* the varint of an int64 cut to its first eight bytes
+             "node-with-separator"}       \* type ++ 0 ++ id : a REPAIR of the recorded node finding, must split the pairs
+Cut8(s) == IF Len(s) > 8 THEN SubSeq(s, 1, 8) ELSE Pad(s, 8)
+PayloadV(v, var) == IF IsInt(v) THEN (IF var = "int64-varint-cut-to-8" THEN Cut8(v.enc)
+                                      ELSE IF Len(v.enc) < 8 THEN Pad(v.enc, 8) ELSE v.enc)
+                    ELSE IF IsFloat(v) THEN v.enc ELSE v.b
+RECURSIVE BytesV(_, _)
+BytesV(i, var) ==
+    LET v == U[i]
+        ObjB(r) == IF var # "object-untagged-predicate" /\ U[r].k = "pred" THEN <<-1>> \o BytesV(r, var) ELSE BytesV(r, var)
+    IN
+    CASE v.k = "node"   -> IF var = "node-with-separator" THEN v.a \o <<0>> \o v.b ELSE v.a \o v.b
+      [] v.k = "pred"   -> v.a \o (IF v.imm THEN IMMUTABLE
+                                   ELSE CASE var = "pred-varint-unpadded" -> v.enc
+                                          [] var = "pred-decimal-nanos"   -> v.dec
+                                          [] OTHER                        -> Pad(v.enc, 16))
+      [] v.k = "lit"    -> IF var = "literal-without-type" THEN PayloadV(v, var) ELSE v.a \o <<COLON>> \o PayloadV(v, var)
+      [] v.k = "obj"    -> ObjB(v.ref[1])
+      [] v.k = "triple" -> <<BytesV(v.ref[1], var), BytesV(v.ref[2], var), ObjB(v.ref[3])>>
+\* a pair that tells the variant from the current design: different values, one byte string under the variant only
+\* (for the repair variant: one byte string under the current design only)
+Tells(i, j, var) == /\ U[i].k = U[j].k /\ ~SameValue(i, j) /\ Defined(i) /\ Defined(j)
+                    /\ (BytesV(i, var) = BytesV(j, var)) # (Bytes(i) = Bytes(j))
+
 \* ---- exhaustive evaluation, one state per pair; reports instead of stopping ---------------------
 VARIABLE pr
 Pairs == {<<i, j>> \in (1..N) \X (1..N) : i <= j /\ U[i].k = U[j].k}
@@ -101,6 +135,7 @@ Report == LET i == pr[1]  j == pr[2] IN
     /\ (i < j /\ Collides(i, j)) => PrintT(<<"COLLIDE", i, j>>)
     /\ (i < j /\ Splits(i, j))   => PrintT(<<"SPLIT", i, j>>)
     /\ (i = j /\ ~Defined(i))    => PrintT(<<"UNDEF", i>>)
+    /\ (Repaired /\ i < j) => \A var \in Variants : Tells(i, j, var) => PrintT(<<"TELLS", var, i, j>>)
 
 ASSUME VarintAgrees
 =============================================================================
